@@ -757,6 +757,9 @@ class BaseConnector:
 
             if self._available_connections(key) > 0:
                 break
+            # Lost the race for this key; the slot that woke us may still be
+            # usable by a waiter for another key.
+            self._release_waiter()
             attempts += 1
 
     async def _get(
